@@ -62,7 +62,7 @@ PROPS = {
         level_text='Kani proves the codec contract L0-L8 and the complement laws on the real compiled crate (real derive expansion, real transmute) for all 256 byte values x all table rows x 7 codecs x debug-assertions on/off; harnesses are loop-free over their symbolic inputs, so this is a complete enumeration of the finite domain, with counterexamples replayed natively',
         level_note=KANI_NOTE,
         technique='Kani contract harnesses over the full u8 domain (complete), native replay of counterexamples',
-        kani=dict(quick=['codec_contract_' + c for c in CODECS] + ['complement_' + c for c in ['dna', 'iupac', 'masked_dna', 'masked_iupac', 'degenerate']] + ['text_bits_identity'],
+        kani=dict(quick=['codec_contract_' + c for c in CODECS] + ['complement_' + c for c in ['dna', 'iupac', 'masked_dna', 'masked_iupac', 'degenerate']] + ['text_bits_identity', 'conversions'],
                   profiles=['debug', 'release']),
         items=True,
         explanation='complete enumeration by Kani: every harness is loop-free over a symbolic byte (all 256 values) and symbolic table rows',
@@ -105,6 +105,7 @@ PROPS = {
         kani=dict(quick=['kmer_dna_ops_k%d' % k for k in (1, 2, 5, 16, 31, 32)] + ['kmer_rev_iupac_k2', 'kmer_rev_iupac_k16', 'kmer_rev_amino_k3', 'kmer_rev_amino_k10', 'kmer_rev_text_k1', 'kmer_rev_text_k8', 'kmer_rev_masked_iupac_k12', 'kmer_rev_degenerate_k7', 'kmer_rev_dna_k9'],
                   thorough=['kmer_dna_ops_k%d' % k for k in range(1, 33)] + ['kmer_rev_iupac_k5'],
                   profiles=['debug', 'release'], quick_profiles=['debug']),
+        standin=True,
     ),
     'C10': dict(
         level='proof',
